@@ -3,6 +3,7 @@ package props
 import (
 	"fmt"
 	"go/ast"
+	"go/token"
 	"go/types"
 	"sort"
 	"strings"
@@ -94,12 +95,18 @@ func c19ParseConvDepth(c *kit.Ctx, f *kit.Func, decoder bool, T types.Type, dept
 			rs = y
 			n++
 		case *ast.ForStmt:
-			n += 2
+			// `for i := 0; i < len(xs); i++` is the same loop as `for i := range xs`
+			if cl := f.CanonLoop(y); cl != nil {
+				rs = cl
+				n++
+			} else {
+				n += 2
+			}
 		}
 		return true
 	})
 	if n != 1 || rs == nil || rs.Key == nil {
-		return fail("expected exactly one range loop with a key")
+		return fail("expected exactly one loop over a slice with an index")
 	}
 	iv := kit.ObjOf(info, rs.Key)
 	var elemV types.Object
@@ -187,6 +194,16 @@ func c19ParseConvDepth(c *kit.Ctx, f *kit.Func, decoder bool, T types.Type, dept
 		case *ast.AssignStmt:
 			if len(y.Lhs) != 1 || len(y.Rhs) != 1 {
 				return fail("unsupported statement `%s`", f.Str(y))
+			}
+			// `_ = x` does nothing; `v := xs[i]` names the element of this iteration
+			if id, isId := y.Lhs[0].(*ast.Ident); isId && id.Name == "_" {
+				if _, isCall := ast.Unparen(y.Rhs[0]).(*ast.CallExpr); !isCall {
+					continue
+				}
+			}
+			if y.Tok == token.DEFINE && kit.LoopElem(info, rs, y.Rhs[0]) && rs.Value == nil && elemV == nil {
+				elemV = kit.ObjOf(info, y.Lhs[0])
+				continue
 			}
 			// buf := make([]byte, 4)
 			if call, ok := ast.Unparen(y.Rhs[0]).(*ast.CallExpr); ok {
